@@ -135,6 +135,12 @@ func (r restClientProtocol) encodeEnd(op *operation, end *responseEnd, writer io
 	}
 	stat := grpcStatusFromError(cerr)
 	bin, err := op.client.codec.MarshalAppend(nil, stat)
+	if err != nil && len(stat.GetDetails()) > 0 {
+		// Details of a type that cannot be resolved have no JSON form.
+		// The code and message (and the HTTP status already sent) still stand.
+		stat.Details = nil
+		bin, err = op.client.codec.MarshalAppend(nil, stat)
+	}
 	if err != nil {
 		// Hardcode the error to be a JSON-encoded gRPC status.
 		bin = []byte(`{"code":13,"message":"failed to marshal end error"}`)
